@@ -632,12 +632,24 @@ func (w *messageWriter) flushFrame(final bool, extra []byte) error {
 	return nil
 }
 
+// grow makes room for at least n more bytes. The Engine.IO WebTransport framing has
+// no continuation frames, so a message must leave as one frame: it is buffered whole
+// and written by Close.
+func (w *messageWriter) grow(n int) {
+	c := w.c
+	size := 2 * len(c.writeBuf)
+	if size < w.pos+n {
+		size = w.pos + n
+	}
+	buf := make([]byte, size)
+	copy(buf, c.writeBuf[:w.pos])
+	c.writeBuf = buf
+}
+
 func (w *messageWriter) ncopy(max int) (int, error) {
 	n := len(w.c.writeBuf) - w.pos
 	if n <= 0 {
-		if err := w.flushFrame(false, nil); err != nil {
-			return 0, err
-		}
+		w.grow(max)
 		n = len(w.c.writeBuf) - w.pos
 	}
 	if n > max {
@@ -649,15 +661,6 @@ func (w *messageWriter) ncopy(max int) (int, error) {
 func (w *messageWriter) Write(p []byte) (int, error) {
 	if w.err != nil {
 		return 0, w.err
-	}
-
-	if len(p) > 2*len(w.c.writeBuf) && w.c.isServer {
-		// Don't buffer large messages.
-		err := w.flushFrame(false, p)
-		if err != nil {
-			return 0, err
-		}
-		return len(p), nil
 	}
 
 	nn := len(p)
@@ -697,10 +700,7 @@ func (w *messageWriter) ReadFrom(r io.Reader) (nn int64, err error) {
 	}
 	for {
 		if w.pos == len(w.c.writeBuf) {
-			err = w.flushFrame(false, nil)
-			if err != nil {
-				break
-			}
+			w.grow(1)
 		}
 		var n int
 		n, err = r.Read(w.c.writeBuf[w.pos:])
